@@ -228,6 +228,97 @@ theorem C10_idem_action_json (cat : List Str) (hw : NoWild cat) (hn : NodupCI ca
   | leaf _ _ => simp [isActionText] at ht
   | obj _ => simp [isActionText] at ht
 
+/-! ### Idempotence of the whole walk -/
+
+theorem isNull_walkWith (fA fN : J → J) (v : J) : isNull (walkWith fA fN v) = isNull v := by
+  cases v <;> simp [walkWith, isNull]
+
+theorem allStr_walkList (fA fN : J → J) : (xs : List J) → allStr (walkList fA fN xs) = allStr xs
+  | [] => by simp [walkList]
+  | x :: xs => by
+    rw [walkList]
+    cases x <;> simp [allStr, walkWith, allStr_walkList fA fN xs]
+
+theorem isActionText_walkWith (fA fN : J → J) (v : J) :
+    isActionText (walkWith fA fN v) = isActionText v := by
+  cases v <;> simp [walkWith, isActionText, allStr_walkList]
+
+theorem isNull_of_text {v : J} (h : isActionText v = true) : isNull v = false := by
+  cases v <;> simp_all [isActionText, isNull]
+
+mutual
+  theorem idem_walk (fA fN : J → J)
+      (hA : ∀ v, isActionText v = true → isActionText (fA v) = true)
+      (hN : ∀ v, isActionText v = true → isActionText (fN v) = true)
+      (iA : ∀ v, isActionText v = true → fA (fA v) = fA v)
+      (iN : ∀ v, isActionText v = true → fN (fN v) = fN v) :
+      (j : J) → walkWith fA fN (walkWith fA fN j) = walkWith fA fN j
+    | .obj kvs => by rw [walkWith, walkWith, idem_walkMembers fA fN hA hN iA iN kvs]
+    | .arr xs => by rw [walkWith, walkWith, idem_walkList fA fN hA hN iA iN xs]
+    | .null => by simp only [walkWith]
+    | .bool _ => by simp only [walkWith]
+    | .int _ => by simp only [walkWith]
+    | .num _ => by simp only [walkWith]
+    | .str _ => by simp only [walkWith]
+    | .leaf _ _ => by simp only [walkWith]
+  theorem idem_walkMembers (fA fN : J → J)
+      (hA : ∀ v, isActionText v = true → isActionText (fA v) = true)
+      (hN : ∀ v, isActionText v = true → isActionText (fN v) = true)
+      (iA : ∀ v, isActionText v = true → fA (fA v) = fA v)
+      (iN : ∀ v, isActionText v = true → fN (fN v) = fN v) :
+      (kvs : List (String × J)) → walkMembers fA fN (walkMembers fA fN kvs) = walkMembers fA fN kvs
+    | [] => by simp only [walkMembers]
+    | (k, v) :: rest => by
+      have ih := idem_walkMembers fA fN hA hN iA iN rest
+      have ihv := idem_walk fA fN hA hN iA iN v
+      rw [walkMembers]
+      by_cases hnull : isNull v = true
+      · simp only [hnull, if_true]
+        rw [walkMembers]; simp only [hnull, if_true, ih]
+      · have hnull' : isNull v = false := by simpa using hnull
+        by_cases ht : isActionText v = true
+        · by_cases h1 : k = "Action"
+          · simp only [hnull', Bool.false_eq_true, if_false, h1, ht, decide_true, Bool.and_self, if_true]
+            rw [walkMembers]
+            simp only [isNull_of_text (hA v ht), Bool.false_eq_true, if_false, hA v ht, decide_true,
+              Bool.and_self, if_true, iA v ht, ih]
+          · by_cases h2 : k = "NotAction"
+            · subst h2
+              have hne : ("NotAction" = "Action") = False := by simp
+              simp only [hnull', Bool.false_eq_true, if_false, hne, ht, decide_true, decide_false,
+                Bool.false_and, Bool.and_self, if_true]
+              rw [walkMembers]
+              simp only [isNull_of_text (hN v ht), Bool.false_eq_true, if_false, hN v ht, decide_true,
+                decide_false, Bool.false_and, Bool.and_self, if_true, iN v ht, ih, hne]
+            · simp only [hnull', Bool.false_eq_true, if_false, h1, h2, decide_false, Bool.false_and]
+              rw [walkMembers]
+              simp only [isNull_walkWith, hnull', Bool.false_eq_true, if_false, h1, h2, decide_false,
+                Bool.false_and, ihv, ih]
+        · have ht' : isActionText v = false := by simpa using ht
+          simp only [hnull', Bool.false_eq_true, if_false, ht', Bool.and_false]
+          rw [walkMembers]
+          simp only [isNull_walkWith, hnull', Bool.false_eq_true, if_false, isActionText_walkWith, ht',
+            Bool.and_false, ihv, ih]
+  theorem idem_walkList (fA fN : J → J)
+      (hA : ∀ v, isActionText v = true → isActionText (fA v) = true)
+      (hN : ∀ v, isActionText v = true → isActionText (fN v) = true)
+      (iA : ∀ v, isActionText v = true → fA (fA v) = fA v)
+      (iN : ∀ v, isActionText v = true → fN (fN v) = fN v) :
+      (xs : List J) → walkList fA fN (walkList fA fN xs) = walkList fA fN xs
+    | [] => by simp only [walkList]
+    | x :: xs => by
+      rw [walkList, walkList, idem_walk fA fN hA hN iA iN x, idem_walkList fA fN hA hN iA iN xs]
+end
+
+/-- C10_idem_tree: over a catalogue whose entries contain no wildcard characters and are distinct up to letter case
+    (both proved of the shipped catalogue), expanding the `Action` elements of an already expanded tree changes
+    nothing, anywhere in the tree (the `NotAction` elements, about which the property says nothing, are held fixed
+    here). -/
+theorem C10_idem_tree (cat : List Str) (hw : NoWild cat) (hn : NodupCI cat) (j : J) :
+    walkWith (expandJ cat false) id (walkWith (expandJ cat false) id j) = walkWith (expandJ cat false) id j :=
+  idem_walk _ _ (isActionText_expandJ cat false) (fun _ h => h)
+    (C10_idem_action_json cat hw hn) (fun _ _ => rfl) j
+
 /-- C10_total: the walk is a total function into JSON: it has no error outcome on any input tree. -/
 theorem C10_total (cat : List Str) (j : J) : ∃ j', walk cat j = j' := ⟨_, rfl⟩
 
